@@ -166,6 +166,11 @@ class ImpParser(Parser):
                 e = ('bin', op[:-1], ('var', name), e)
             return ('assign', name, e), None
         e = self.parse_expr()
+        if self.peek()[1] == '=' and e[0] in ('fieldname', 'index'):
+            self.next()
+            rhs = self.parse_expr()
+            self.expect(';')
+            return ('assign_path', e, rhs), None
         if self.accept(';'):
             return ('expr', e), None
         self.expect('}')
@@ -262,13 +267,26 @@ class ImpTr(Tr):
             return None if b is None else '%s.%s' % (b, e[2])
         if k == 'index':
             b = self.path_of(e[1])
-            if b is None or e[2][0] != 'lit':
+            if b is None:
                 return None
-            return '%s[%d]' % (b, e[2][1])
+            if e[2][0] == 'lit':
+                return '%s[%d]' % (b, e[2][1])
+            if e[2][0] == 'var':
+                return '%s[%s]' % (b, e[2][1])
+            return None
         return None
 
     def expr(self, e, env, want=None):
         k = e[0]
+        if k in ('fieldname', 'index', 'path'):
+            pth = self.path_of(e)
+            if pth is not None and ('@path:' + pth) in env:
+                v = env['@path:' + pth]
+                return v[0], v[1], []
+        if k == 'index' and e[1][0] == 'var' and e[1][1] in getattr(self, 'tables', {}):
+            gname, ety, n = self.tables[e[1][1]]
+            g, ty, c = self.expr(e[2], env, 'usize')
+            return '(nth (Z.to_nat %s) %s 0)' % (g, gname), ety, c + ['((0 <=? %s) && (%s <? %d))' % (g, g, n)]
         if k in ('fieldname', 'index', 'path') and getattr(self, 'fields', None):
             pth = self.path_of(e)
             if pth in self.fields:
@@ -393,6 +411,18 @@ class ImpTr(Tr):
                 gn = self.ctx.fresh('%s%s' % (name, str(key).replace('-', 'm')))
                 binds.append((gn, g))
                 arr.cells[key] = gn
+                continue
+            if k == 'assign_path':
+                pth = self.path_of(st[1])
+                outs = getattr(self, 'outputs', {})
+                if pth is None or pth not in outs:
+                    raise Untranslatable('assignment to undeclared place %s' % pth)
+                ex = self.hoist(st[2], env, binds, pending)
+                g, gty, c = self.expr(ex, env, outs[pth])
+                pending += [(len(binds), x) for x in c]
+                gn = self.ctx.fresh(re.sub(r'\W+', '_', pth).strip('_'))
+                binds.append((gn, g))
+                env['@path:' + pth] = (gn, outs[pth])
                 continue
             if k == 'assert':
                 g, gty, c = self.expr(st[2], env, 'bool')
@@ -783,6 +813,91 @@ def translate_imp(src, kd, ctx, kernels):
     kernels[kd['fn']] = {'gname': gname, 'params': plist, 'keys': keys, 'mutates': kd['mutates'], 'ret': rty}
     return text
 
+
+def collect_nested_fns(blk, acc):
+    for st in blk[1]:
+        if st[0] == 'fn':
+            body = st[3]
+            if not body[1] and body[2] is not None:
+                acc[st[1]] = (st[2], body[2])
+    return acc
+
+
+def translate_fragment_imp(src, kd, ctx, kernels):
+    """kd: dict(fn, marker, gname, params=[(name, type)], fields={path: (gname, type)|('const',(v,ty))}, outputs=[(path, type)],
+                 tables={RUSTNAME: (gallina name, elem type, length)})
+    translates the innermost block of `fn` containing `marker`; result = list of the final values of the output places"""
+    from rs2v import enclosing_block
+    found = find_fn(src, kd['fn'])
+    if not found:
+        raise Untranslatable('function not found')
+    body_src = found[2]
+    pos = body_src.find(kd['marker'])
+    if pos < 0:
+        raise Untranslatable('marker not found')
+    blk_src = enclosing_block(body_src, pos)
+    inl = {}
+    try:
+        collect_nested_fns(ImpParser(tokenize(body_src)).parse_block(), inl)
+    except Untranslatable:
+        # the surrounding function need not be in the subset; nested single-expression fns are found textually
+        for m in re.finditer(r'\bfn\s+(\w+)\s*\(([^)]*)\)\s*(?:->\s*[\w:<>]+)?\s*\{', body_src):
+            name = m.group(1)
+            if name == kd['fn']:
+                continue
+            k, depth = m.end(), 1
+            while depth:
+                depth += (body_src[k] == '{') - (body_src[k] == '}')
+                k += 1
+            fb = ImpParser(tokenize(body_src[m.end() - 1:k])).parse_block()
+            if not fb[1] and fb[2] is not None:
+                params = [x.split(':')[0].strip().replace('mut ', '') for x in m.group(2).split(',') if x.strip()]
+                inl[name] = (params, fb[2])
+    blk = ImpParser(tokenize(blk_src)).parse_block()
+    env, args, pre = {}, [], []
+    for pname, pty in kd.get('params', []):
+        env[pname] = (pname, pty)
+        args.append((pname, pty))
+        if pty != 'bool':
+            pre.append(inrange(pty, pname))
+    tr = ImpTr(ctx, None, kernels, inl)
+    tr.fields, tr.tables, tr.outputs = {}, kd.get('tables', {}), dict(kd['outputs'])
+    for pth, (gn, ty) in kd.get('fields', {}).items():
+        if gn == 'const':
+            tr.fields[pth] = ('const', ty[0], ty[1])
+        else:
+            tr.fields[pth] = (gn, ty)
+            args.append((gn, ty))
+            if ty != 'bool':
+                pre.append(inrange(ty, gn))
+    binds, pending = [], []
+    tr.exec_block(('block', blk[1], None) if blk[2] is None else blk, env, binds, pending)
+    outs = []
+    for pth, ty in kd['outputs']:
+        if ('@path:' + pth) not in env:
+            raise Untranslatable('output place %s is never assigned' % pth)
+        outs.append(env['@path:' + pth][0])
+    value = expand_listpats(tr.close_simple(binds, '[%s]' % '; '.join(outs)))
+    ok = expand_listpats(tr.close_checks(binds, pending))
+    a = ' '.join('(%s : %s)' % (n, 'bool' if t == 'bool' else 'Z') for n, t in args)
+    gname = kd['gname']
+    text = 'Definition %s %s : list Z :=\n  %s.\n' % (gname, a, value)
+    text += 'Definition %s_ok %s : bool :=\n    %s.\n' % (gname, a, ok)
+    text += 'Definition %s_pre %s : bool := %s.\n' % (gname, a, ' && '.join(pre) or 'true')
+    return text
+
+
+IMP_FRAGMENTS = [
+    # per-segment dequantisation factors: the body of the `for i in 0usize..n` loop of read_quantization_indices
+    dict(file='vp8.rs', fn='read_quantization_indices', marker='self.segment[i].ydc = dc_quant', gname='segment_quantizers',
+         params=[('yac_abs', 'u8'), ('ydc_delta', 'i32'), ('y2dc_delta', 'i32'), ('y2ac_delta', 'i32'), ('uvdc_delta', 'i32'), ('uvac_delta', 'i32')],
+         fields={'self.segments_enabled': ('segments_enabled', 'bool'),
+                 'self.segment[i].delta_values': ('segment_delta_values', 'bool'),
+                 'self.segment[i].quantizer_level': ('segment_quantizer_level', 'i8')},
+         outputs=[('self.segment[i].ydc', 'i16'), ('self.segment[i].yac', 'i16'), ('self.segment[i].y2dc', 'i16'),
+                  ('self.segment[i].y2ac', 'i16'), ('self.segment[i].uvdc', 'i16'), ('self.segment[i].uvac', 'i16')],
+         tables={'DC_QUANT': ('vp8_DC_QUANT', 'i16', 128), 'AC_QUANT': ('vp8_AC_QUANT', 'i16', 128)}),
+]
 
 TAPS8 = {'pixels': ('taps', 'u8', 'point', 'stride', -4, 3)}
 IMP_KERNELS = [
